@@ -84,6 +84,18 @@ CHECKS = {
         note=NOTE_COMMON + "Tor's grammar is transcribed by hand (numeric escapes rejected by the spec). Queue assumed idle.",
         technique="Lean 4 round-trip theorem (induction over pairs and characters) + differential correspondence with set_conf",
         ref='§4 C12'),
+    'C15': dict(
+        text=("C15_once (once fired, nothing fires again or changes the outcome), C15_unsubscribed_always (for every history: fired => unsubscribed, on "
+              "success and failure alike), C15_foreign_inert / C15_foreign_uploaded_inert / C15_before_reply (events of other services and events "
+              "before the address is known change nothing), C15_any (first confirmed upload completes the wait at that event), C15_all + "
+              "C15_all_run (await-all mode, every disciplined history with the reply anywhere: never left hanging once every attempted upload has a "
+              "result; success <=> all settled with >=1 confirmed; failure <=> all failed) via a counting lemma on duplicate-free sets. "
+              "C15_fails_foreign_uploaded_shared_dir witnesses the listed finding. Correspondence: real EphemeralOnionService.create on the real "
+              "protocol vs the fake Tor, state of create() and of the HS_DESC subscription after every event."),
+        note=NOTE_COMMON + "Whether an event's address is this service's is an input of the model (for authenticated services it goes through the cryptography package, not modelled). "
+             "Known finding: a foreign UPLOADED to a shared directory completes the wait (pinned by tests).",
+        technique="Lean 4: step-machine invariants (tidy sets, not-missed) by induction over histories; differential correspondence through real create()",
+        ref='§4 C15'),
     'C20': dict(
         text=("C20_refines: for EVERY history of ADDRMAP lines (all token forms: local-time field, EXPIRES=, NEVER, <error>, extra flags) and clock "
               "advances, with any expiry offset past or future, the model's map equals the spec's (Tor's latest mapping per name under the clock: "
